@@ -168,11 +168,11 @@ PROPS = {
         assumptions=COMMON_ASSUME + ["don't-care inputs (first non-blank character ')', blank-only input, integers of more than 19 decimal / 16 hex digits, NUL or octets >= 0x80, '#X' prefix) "
                                      "are only checked for memory safety, termination and leaks"],
         targets=[
-            enum("enum", ["props/C20_enum.cpp"], qs=12, ts=16, extra_objs=["sx_ledger.o"]),
-            vg(["props/C20_enum.cpp"], extra_objs=["sx_ledger.o"]), dbg(["props/C20_enum.cpp"], extra_objs=["sx_ledger.o"]),
-            rc("rc", ["props/C20_rc.cpp"], 1500, 30000, qs=4, ts=16, max_size=200, extra_objs=["sx_ledger.o"]),
-            dict(name="fuzz", sources=["props/C20_fuzz.cpp"], fuzz=True, lib="fuzz", corpus="C20", dict="corpus/C20.dict", max_len=128, fuzz_args=["-only_ascii=1"], extra_objs=["sx_ledger.o"],
-                 quick=dict(shards=4, runs=150000), thorough=dict(shards=16, runs=4000000, max_total_time=240)),
+            enum("enum", ["props/C20_enum.cpp", "shims/c_callers.c"], qs=12, ts=16, extra_objs=["sx_ledger.o"]),
+            vg(["props/C20_enum.cpp", "shims/c_callers.c"], extra_objs=["sx_ledger.o"]), dbg(["props/C20_enum.cpp", "shims/c_callers.c"], extra_objs=["sx_ledger.o"]),
+            rc("rc", ["props/C20_rc.cpp", "shims/c_callers.c"], 1500, 30000, qs=4, ts=16, max_size=200, extra_objs=["sx_ledger.o"]),
+            dict(name="fuzz", sources=["props/C20_fuzz.cpp", "shims/c_callers.c"], fuzz=True, lib="fuzz", corpus="C20", dict="corpus/C20.dict", max_len=128, fuzz_args=["-only_ascii=1"], extra_objs=["sx_ledger.o"],
+                 quick=dict(shards=4, runs=90000), thorough=dict(shards=16, runs=4000000, max_total_time=240)),
         ],
     ),
     "C01": dict(
